@@ -47,7 +47,7 @@ def bounds(tier):
 def cases(tier, seed):
     b = bounds(tier)
     pats = list(sparsegen.all_patterns(b['max_rows'], b['max_cols']))
-    step = 24 if tier == 'quick' else 64
+    step = 8 if tier == 'quick' else 32
     for i in range(0, len(pats), step):
         yield {'kind': 'patterns', 'patterns': pats[i:i + step],
                'd': b['deviation_bound'], 'seed': seed}
@@ -65,8 +65,12 @@ def row_lists(n_rows):
             yield list(rows)
 
 
-def check_iterator(path, mat, enc, layer, chunk, max_gb, tmp_dir, label):
-    """all access paths of the real iterator against the dense matrix"""
+def check_iterator(path, mat, enc, layer, chunk, max_gb, tmp_dir, label,
+                   light=False):
+    """all access paths of the real iterator against the dense matrix
+    (light: iteration, whole-range get_chunk, and the row lists that reverse
+    / rotate all rows - used for configurations that deviate from the
+    default, whose full access-path product is covered at the default)"""
     from cell_type_mapper.anndata_iterator.anndata_iterator import (
         AnnDataRowIterator)
     msgs = []
@@ -97,9 +101,42 @@ def check_iterator(path, mat, enc, layer, chunk, max_gb, tmp_dir, label):
         if got.shape != mat.shape or not np.array_equal(
                 got.astype(float), mat.astype(float)):
             msgs.append(f'{label}: concatenated chunks differ:\n{got}')
+    # sequential iteration interleaved with random access on ONE iterator
+    # object: the cursor of the iteration must not move
+    it3 = AnnDataRowIterator(**kw)
+    got_rows = []
+    step = 0
+    while True:
+        try:
+            chunk_data, r0, r1 = next(it3)
+        except StopIteration:
+            break
+        got_rows.append((r0, r1, np.array(chunk_data, dtype=float)))
+        k = step % n_rows
+        it3.get_chunk(k, min(n_rows, k + 1 + step % 2))
+        it3.get_batch([n_rows - 1 - k] + ([k] if k != n_rows - 1 - k
+                                          else []))
+        it3[k]
+        step += 1
+        if step > 4 * n_rows + 4:
+            msgs.append(f'{label}: interleaved iteration does not end')
+            break
+    flat = [(a, b) for a, b, _ in got_rows]
+    exp_ranges = [(a, min(n_rows, a + chunk))
+                  for a in range(0, n_rows, chunk)]
+    if flat != exp_ranges:
+        msgs.append(f'{label}: iteration interleaved with random access '
+                    f'yields row ranges {flat} expected {exp_ranges}')
+    elif got_rows and not np.array_equal(
+            np.vstack([c for _, _, c in got_rows]), mat.astype(float)):
+        msgs.append(f'{label}: iteration interleaved with random access '
+                    'yields wrong values')
+    del it3
     # random access
     it2 = AnnDataRowIterator(**kw)
     for r0 in range(n_rows):
+        if light:
+            break
         for r1 in range(r0 + 1, n_rows + 1):
             got = np.asarray(it2.get_chunk(r0, r1)[0])
             if not np.array_equal(got.astype(float),
@@ -109,7 +146,11 @@ def check_iterator(path, mat, enc, layer, chunk, max_gb, tmp_dir, label):
         if not np.array_equal(got.astype(float),
                               mat[r0:r0 + 1].astype(float)):
             msgs.append(f'{label}: [{r0}] differs')
-    for rows in row_lists(n_rows):
+    lists = list(row_lists(n_rows))
+    if light:
+        allr = list(range(n_rows))
+        lists = [allr[::-1], allr[1:] + allr[:1], allr[-1:]]
+    for rows in lists:
         for sparse in (False, True):
             got = it2.get_batch(rows, sparse=sparse)
             if sparse:
@@ -139,12 +180,12 @@ def evaluate(case, scratch):
     n_eval = 0
     sample = None
 
-    def attempt(path, mat, enc, layer, chunk, max_gb, label):
+    def attempt(path, mat, enc, layer, chunk, max_gb, label, light=False):
         tmp = d / 'tmp'
         tmp.mkdir(exist_ok=True)
         try:
             msgs = check_iterator(path, mat, enc, layer, chunk, max_gb, tmp,
-                                  label)
+                                  label, light=light)
         except Exception as e:
             tb = traceback.format_exc().strip().split('\n')
             msgs = [f'{label}: raised {type(e).__name__}: {e} @ '
@@ -186,7 +227,7 @@ def evaluate(case, scratch):
                         label = (f'{enc} chunk={chunk} '
                                  f'{ {k: cfg[k] for k in dev} }')
                         attempt(path, mat, enc, cfg['layer'], chunk,
-                                cfg['max_gb'], label)
+                                cfg['max_gb'], label, light=bool(dev))
                         if mat.any():
                             keys.append(f'{pat}|{label}')
                     path.unlink()
